@@ -33,7 +33,7 @@ fn l_two_repeats() -> Layout {
 fn l_super_dvorak() -> Layout { load_layout_text(crate::default_fancy_layouts::DEFAULT_LAYOUTS["super-dvorak"]).expect("super-dvorak") }
 
 fn cfg(alphabet: &[KeyCode], max_events: usize, max_tablet: usize, devs: usize, ticks: usize, interval_ms: u64) -> EnvCfg {
-  EnvCfg { alphabet: alphabet.to_vec(), max_events, max_tablet, devs, ticks, tablet_end: false, late_us: vec![1000, interval_ms * 1000 - 1000], exact_deadline_arrival: true, max_calls: 400, script: vec![], burst_sizes: vec![], max_bursts: 0, single_event_wakeups: false, verbose: false }
+  EnvCfg { alphabet: alphabet.to_vec(), max_events, max_tablet, devs, ticks, tablet_end: false, late_us: vec![1000, interval_ms * 1000 - 1000], exact_deadline_arrival: true, max_calls: 400, script: vec![], burst_sizes: vec![], max_bursts: 0, single_event_wakeups: false, verbose: false, empty_wakeups: true }
 }
 
 
@@ -80,6 +80,9 @@ fn families(id: &str, tier: Tier) -> Vec<BFamily<'static>> {
       let mut ct = cfg(&[A], if q { 4 } else { 5 }, 2, if q { 1 } else { 2 }, 0, 30); ct.tablet_end = true;
       add("plain A->B over {A} interleaved with up to 2 tablet events, either device may go away", l_plain(), ct);
       add("chord layout over {CAPSLOCK,J} interleaved with a tablet event", l_chord(), cfg(&[CAPSLOCK, J], if q { 4 } else { 5 }, 1, if q { 0 } else { 1 }, 0, 30));
+      // two deviations in a row (two interruptions, interruption + empty wake-up, ...) over short histories, with end-of-device anywhere
+      { let mut c2 = cfg(&[A], 3, if q { 0 } else { 1 }, 2, 0, 30); c2.tablet_end = !q;
+        add("plain A->B over {A}: histories up to 3 events, deviation bound 2", l_plain(), c2); }
       // the loop's other input: the verbose flag (diagnostics must not change what is written)
       { let mut cv = cfg(&[A, B, LEFTSHIFT], if q { 4 } else { 5 }, 1, 1, 0, 30); cv.verbose = true; cv.tablet_end = true;
         add("verbose loop: no-repeat layout over {A,B,LEFTSHIFT} with a tablet event, either device may go away", l_norepeat(), cv); }
@@ -213,7 +216,7 @@ fn chord_signature(_prop: &str, _clause: &str, _detail: &str) -> Option<String> 
 
 pub fn env_json(c: &EnvCfg) -> Value {
   json!({"alphabet": c.alphabet.iter().map(|k| format!("{}", k)).collect::<Vec<_>>(), "max_events": c.max_events, "max_tablet": c.max_tablet, "devs": c.devs, "ticks": c.ticks, "tablet_end": c.tablet_end, "late_us": c.late_us, "exact_deadline_arrival": c.exact_deadline_arrival, "max_calls": c.max_calls,
-    "script": c.script.iter().map(|e| match e { crate::keys::Event::Pressed(k) => format!("+{}", k), crate::keys::Event::Released(k) => format!("-{}", k) }).collect::<Vec<_>>(), "burst_sizes": c.burst_sizes, "max_bursts": c.max_bursts, "single_event_wakeups": c.single_event_wakeups, "verbose": c.verbose})
+    "script": c.script.iter().map(|e| match e { crate::keys::Event::Pressed(k) => format!("+{}", k), crate::keys::Event::Released(k) => format!("-{}", k) }).collect::<Vec<_>>(), "burst_sizes": c.burst_sizes, "max_bursts": c.max_bursts, "single_event_wakeups": c.single_event_wakeups, "verbose": c.verbose, "empty_wakeups": c.empty_wakeups})
 }
 
 pub fn replay_artefact(v: &Value) -> i32 {
@@ -230,6 +233,7 @@ pub fn replay_artefact(v: &Value) -> i32 {
     max_bursts: e["max_bursts"].as_u64().unwrap_or(0) as usize,
     single_event_wakeups: e["single_event_wakeups"].as_bool().unwrap_or(false),
     verbose: e["verbose"].as_bool().unwrap_or(false),
+    empty_wakeups: e["empty_wakeups"].as_bool().unwrap_or(false),
   };
   let choices: Vec<u16> = v["choices"].as_array().unwrap().iter().map(|x| x.as_u64().unwrap() as u16).collect();
   let fail_at = v["fail_at"].as_u64().map(|k| k as usize);
